@@ -265,10 +265,9 @@ def replay_cases(ck, kind, cases, code_cases=None):
                 what = "system %s, build file %s: tables of the code %s, specification %s" % (
                     case["sys"], [(b["e"], b["k"] or b["rn"], b["v"]) for b in case["bld"]], json.dumps(obs, sort_keys=True), json.dumps(exp, sort_keys=True))
                 if asc is not None and obs == expected_proj(asc):
-                    # exact classifier: the real result equals the I-layer result with the deviation DevVolLost
-                    ck.violation({"kind": "S->I prec", "case": case}, sig=SIG_VOL, what=what)
-                else:
-                    ck.violation({"kind": "S->I prec", "case": case}, what=what)
+                    # diagnostic only: the result equals the I-layer with DevVolLost, i.e. the repaired defect F21 is back
+                    what += "  [= behaviour of the repaired defect F21 %s]" % SIG_VOL
+                ck.violation({"kind": "S->I prec", "case": case}, what=what)
         elif verdict != "ok":
             ck.violation({"kind": "S->I " + kind, "case": case}, what="%s replay: %s" % (kind, detail))
     ck.replayed += len(cases)
@@ -637,7 +636,7 @@ def _opt_chunk(arg):
     return out
 
 
-def validate(ck, runs, vs, name, cfg="Tp_trace.cfg", count=True, opt=()):
+def validate(ck, runs, vs, name, count=True, opt=()):
     wd = c.workdir("C15", name)
     content = {}
     for r in runs:
@@ -648,7 +647,7 @@ def validate(ck, runs, vs, name, cfg="Tp_trace.cfg", count=True, opt=()):
            "opt": [{k: o[k] for k in ("success", "targets_ok")} for o in opt]}
     f = wd / "traces.json"
     f.write_text(json.dumps(doc))
-    res = c.tlc("TpTrace", cfg, workers=1, env={"TRACE_FILE": str(f)}, check=False)
+    res = c.tlc("TpTrace", "Tp_trace.cfg", workers=1, env={"TRACE_FILE": str(f)}, check=False)
     rej, rejvs = res.tagged("REJECTED"), res.tagged("REJECTEDVS") + [[-int(i) for i in r] for r in res.tagged("REJECTEDOPT")]
     if res.rc != 0 and not rej and not rejvs:
         raise c.MachineryError("TpTrace failed: %s" % res.out[-2500:])
@@ -700,12 +699,11 @@ def run(tier):
     quick = tier == "quick"
     rng = random.Random(sd)
     tu.import_polyply_quietly()
-    known = SIG_VOL in ck._known
     ck.stage("TLC: models, deviations, exports (concurrently)")
     devs = [("MC_Templates", "Tp_dev_VolOverwritten.cfg", "UserVolumeWins", "user volume overwritten by the generated one (m43)"),
             ("MC_Templates", "Tp_dev_UserRegen.cfg", "UserTemplateWins", "user template generated again"),
             ("MC_Templates", "Tp_dev_Recentre.cfg", "UserTemplateUnchanged", "user template re-centred around another point"),
-            ("MC_Templates", "Tp_dev_VolLost.cfg", "UserVolumeWins", "finding %s (the code as it is)" % SIG_VOL),
+            ("MC_Templates", "Tp_dev_VolLost.cfg", "UserVolumeWins", "repaired finding F21 %s (size by residue name deleted at the end of the build file)" % SIG_VOL),
             ("TpGroup", "Tp_dev_ByResname.cfg", "GroupingLaw", "grouping by residue name only"),
             ("TpVS", "Tp_dev_VSWeightSwap.cfg", "VSLaw", "virtual-site weights swapped")]
     # quick: the export run checks every law of Templates.tla on its instance, so it doubles as the model run
@@ -720,7 +718,7 @@ def run(tier):
     res = {n: r for (n, _), r in zip(named, out)}
     ck.model_must_hold(res["group"], "GroupingLaw/NamesLaw/CanonLaw/OrderLaw")
     ck.model_must_hold(res["export"], "Tagged/UserTemplateWins/UserVolumeWins/UserTemplateUnchanged/UserSticks + export")
-    ck.add_tlc(res["export_code"])
+    ck.add_tlc(res["export_code"])      # sensitivity export (DevVolLost): only selects and labels the behaviours in which the repaired defect F21 would show
     ck.model_must_hold(res["vs"], "VSLaw/Equivariant/Handed")
     if not quick:
         ck.model_must_hold(res["full"], "Tagged/UserTemplateWins/UserVolumeWins/UserTemplateUnchanged/UserSticks (larger instance)")
@@ -749,7 +747,7 @@ def run(tier):
         raise c.MachineryError("precedence exports disagree in size: %d vs %d" % (len(pcases), len(code_cases)))
     ndev = sum(1 for x in pcases if expected_proj(x) != expected_proj(code_cases[case_key(x)]))
     ck.extra["precedence_behaviours_decided_by_TLC"] = len(pcases)
-    ck.extra["precedence_behaviours_where_code_model_deviates"] = ndev
+    ck.extra["precedence_behaviours_sensitive_to_repaired_F21"] = ndev
     if quick:
         def pcls(x):
             return (len(x["sys"]), tuple(sorted({k for m in x["sys"] for k in m})), tuple(sorted((b["e"], b["k"] or b["rn"]) for b in x["bld"])),
@@ -762,8 +760,6 @@ def run(tier):
         ck.nontrivial.add("p" + case_key(x)) if x["bld"] else None
     ck.sample({"S->I precedence case": {k: next(x for x in psel if len(x["bld"]) == 3)[k] for k in ("sys", "bld", "keys", "tags")}})
     replay_cases(ck, "prec", psel, code_cases)
-    if ndev and not known:
-        ck.note("finding %s is not listed as known: its cases are reported as violations" % SIG_VOL)
 
     ck.stage("S->I: virtual sites")
     vcases = res["vs"].cases()
@@ -822,12 +818,6 @@ def run(tier):
     sample_run = next((r for r in runs if any(ev["gen"] for ev in r["trace"]["events"]) and r["trace"]["bld"]), runs[0])
     ck.sample({"I->S trace": {"bld": sample_run["trace"]["bld"], "sys": sample_run["trace"]["sys"],
                               "events": [{k: ev[k] for k in ("op", "vols", "tmpl", "tags", "gen")} for ev in sample_run["trace"]["events"][:4]]}})
-    # traces the intended I-layer rejects: are they exactly the known deviation?
-    second = {}
-    if rejected:
-        sub = [runs[t - 1] for t in sorted(rejected)]
-        rej2, _ = validate(ck, sub, [], "traces_code", cfg="Tp_trace_code.cfg")
-        second = {t: (i + 1) in rej2 for i, t in enumerate(sorted(rejected))}
     ck.traces += len(runs) - len(rejected)
     for tid, matched in sorted(rejected.items()):
         r = runs[tid - 1]
@@ -836,10 +826,7 @@ def run(tier):
             r["seed"], matched, json.dumps({k: evs[matched][k] for k in ("op", "vols", "tmpl", "gen")} if matched < len(evs) else None)[:500],
             json.dumps(r["raw"][matched] if matched < len(r["raw"]) else None)[:400])
         case = {"kind": "I->S trace", "seed": r["seed"], "case": r["case"], "trace": r["trace"], "content": r["content"], "matched_events": matched}
-        if not second.get(tid, True):
-            ck.violation(case, sig=SIG_VOL, what=what)       # accepted by the I-layer with DevVolLost: exactly the known deviation
-        else:
-            ck.violation(case, what=what)
+        ck.violation(case, what=what)
     for i in badopt:
         ck.violation({"kind": "optimize_geometry", "sample": opt[i - 1]}, what="optimize_geometry reported success but a target is outside its tolerance: worst deviations %s" % (
             json.dumps(opt[i - 1]["raw"].get("worst", opt[i - 1]["raw"].get("exception")))[:300]))
